@@ -15,6 +15,8 @@ pub struct Cfg {}
 #[derive(Clone, Debug)]
 pub enum Ev {
     Convert(u32),
+    /// the same input converted n times in a row (a held key at the sample rate)
+    Hold(u32, u32),
     Allow(Vec<u8>),
     Forbid(Vec<u8>),
     /// power cycle: Quantizer::new() + the current scale re-applied
@@ -117,6 +119,206 @@ impl Exec {
     }
 }
 
+/// one conversion on the real quantizer, the scale model and the oracles
+fn convert_step(ex: &mut Exec, bits: u32, ctx: &mut Ctx) {
+        let v = f32::from_bits(bits);
+        // "the input" of C09/C19 is the input after the documented clamp to [0, 10] V (C08 says so explicitly;
+        // with the raw input the statement's window rule and its monotonicity consequence contradict each
+        // other for inputs above 10 V, see DESIGN.md section 7)
+        let v64 = if v.is_nan() { f64::NAN } else { (v as f64).max(0.0).min(10.0) };
+        ctx.steps += 1;
+        ctx.sim_ns += 1_000_000; // control-rate conversion, 1 kHz
+        let c = real!(ex.q.convert(v));
+        let note = c.note_num;
+        let p = ex.prev;
+        let mask = ex.mask;
+        if v.is_nan() || v.is_infinite() {
+            ctx.fault(F_NONFINITE_INPUT);
+        } else if !(0.0..=10.0).contains(&v) {
+            ctx.fault(F_OUT_OF_RANGE_INPUT);
+        }
+        if ex.edited_since_convert {
+            ctx.fault(F_EDIT_BETWEEN_CONVERSIONS);
+            if ex.last_v == Some(bits) && v >= 1.0 {
+                ctx.probe(P_EDIT_BETWEEN_EQUAL_INPUTS_OCT_GE1);
+            }
+        }
+        if mask.count_ones() <= 3 {
+            ctx.probe(P_SPARSE_SCALE_CONVERSIONS);
+        }
+
+        // ---------------- C07
+        ctx.check(7, "note_is_allowed_now", mask >> (note % 12) & 1 == 1, || {
+            format!("convert({:e}) = note {} (pitch class {}) but the scale mask is {:012b}", v, note, note % 12, mask)
+        });
+
+        // ---------------- C09
+        let mut kept_by_window = false;
+        if !v.is_nan() {
+            let mut ambiguous = false;
+            let mut in_window = false;
+            if let Some(p) = p {
+                if mask >> (p % 12) & 1 == 1 {
+                    let lo = p as f64 * SEMI - HYST;
+                    let hi = p as f64 * SEMI + SEMI + HYST;
+                    let margin = 3e-6;
+                    if (v64 - lo).abs() < margin || (v64 - hi).abs() < margin {
+                        ambiguous = true;
+                    }
+                    in_window = lo < v64 && v64 < hi;
+                    if in_window && (v64 - lo < HYST || hi - v64 < HYST) {
+                        ctx.probe(P_WINDOW_EDGE_ZONE);
+                    }
+                } else {
+                    let lo = p as f64 * SEMI - HYST;
+                    let hi = p as f64 * SEMI + SEMI + HYST;
+                    if lo < v64 && v64 < hi {
+                        ctx.probe(P_PREV_NOTE_FORBIDDEN_IN_WINDOW);
+                    }
+                }
+            }
+            if ambiguous {
+                ctx.probe(P_AMBIGUOUS_EDGE);
+            } else if in_window {
+                let p = p.unwrap();
+                if p >= 12 {
+                    ctx.probe(P_WINDOW_HIT_OCT_GE1);
+                }
+                kept_by_window = true;
+                ctx.check(9, "hysteresis_holds_note", note == p, || {
+                    format!(
+                        "previous note {} is allowed and input {:e} (clamped to [0,10]) lies inside its widened bucket ({:.6}, {:.6}) but the note changed to {}",
+                        p,
+                        v,
+                        p as f64 * SEMI - HYST,
+                        p as f64 * SEMI + SEMI + HYST,
+                        note
+                    )
+                });
+            } else {
+                let mut twin = fresh_with(mask);
+                let tn = real!(twin.convert(v)).note_num;
+                ctx.probe(P_MEMORYLESS_COMPARISONS);
+                ctx.check(9, "outside_window_is_memoryless", note == tn, || {
+                    format!(
+                        "input {:e} is outside the window of previous note {:?} (scale {:012b}); a quantizer without history reports {} but this one reports {}",
+                        v, p, mask, tn, note
+                    )
+                });
+            }
+        }
+        // scenario: non-decreasing inputs on a fixed scale give non-decreasing notes
+        if v.is_nan() {
+            ex.mono = None;
+        } else {
+            if let Some((pv, pn)) = ex.mono {
+                if v >= pv {
+                    ctx.probe(P_MONOTONE_CHAIN_STEPS);
+                    ctx.check(9, "monotone_on_rising_input", note >= pn, || {
+                        format!("scale {:012b} fixed, input rose {:e} -> {:e} but the note fell {} -> {}", mask, pv, v, pn, note)
+                    });
+                }
+            }
+            ex.mono = Some((v, note));
+        }
+        // scenario: noise smaller than the hysteresis width around a chromatic boundary: at most one change
+        let mut band_now = None;
+        if mask == 0xFFF && v.is_finite() && v64 > 0.04 && v64 < 9.96 {
+            let nb = (v64 * 12.0).round();
+            if (v64 - nb * SEMI).abs() < HYST - 4e-6 {
+                band_now = Some(nb as i32);
+            }
+        }
+        match (band_now, ex.band) {
+            (Some(nb), Some((ob, ch, ln))) if nb == ob => {
+                let ch2 = ch + (note != ln) as u32;
+                ctx.probe(P_NOISE_BAND_CONVERSIONS);
+                ctx.check(9, "noise_at_boundary_at_most_one_change", ch2 <= 1, || {
+                    format!(
+                        "inputs stayed within 1/120 V of the chromatic boundary {:.6} V but the note changed {} times (now {} -> {})",
+                        nb as f64 * SEMI,
+                        ch2,
+                        ln,
+                        note
+                    )
+                });
+                ex.band = Some((nb, ch2, note));
+            }
+            (Some(nb), _) => {
+                let first_changed = p.map(|p| p != note).unwrap_or(false) as u32;
+                ex.band = Some((nb, first_changed, note));
+            }
+            (None, _) => ex.band = None,
+        }
+
+        // ---------------- C19
+        let stair_expect = note as f32 / 12.0;
+        // note/12 as an f32: two ulps of slack so that `note * (1/12)` is accepted as well
+        let stair_ok = (c.stairstep as f64 - note as f64 / 12.0).abs() <= 2.0 * ulp32(stair_expect) + 1e-12;
+        ctx.check(19, "stairstep_is_note_over_12", stair_ok, || {
+            format!("note {} but stairstep {:e} (expected {:e})", note, c.stairstep, stair_expect)
+        });
+        if !v.is_nan() {
+            let clamped = v.max(0.0).min(10.0);
+            let sum64 = c.stairstep as f64 + c.fraction as f64;
+            let sum32 = (c.stairstep + c.fraction) as f64;
+            let close = |target: f32| {
+                let tol = 2.0 * ulp32(target.abs().max(c.stairstep.abs()));
+                (sum64 - target as f64).abs() <= tol || (sum32 - target as f64).abs() <= tol
+            };
+            let ok = if (0.0..=10.0).contains(&v) { close(v) } else { (v.is_finite() && close(v)) || close(clamped) };
+            ctx.check(19, "stairstep_plus_fraction_reproduces_input", ok, || {
+                format!("input {:e}: stairstep {:e} + fraction {:e} = {:e}", v, c.stairstep, c.fraction, sum64)
+            });
+            // precondition of the clause is observable: the window actually kept the previous note
+            // "the hysteresis window kept the previous note": the previous note came back although a quantizer
+            // without history would have reported another one, or the input is inside the window of the statement
+            let kept = Some(note) == p && (kept_by_window || {
+                let mut twin = fresh_with(mask);
+                real!(twin.convert(v)).note_num != note
+            });
+            if kept {
+                let f = c.fraction as f64;
+                ctx.check(19, "fraction_range_when_window_kept_note", f >= -0.1 * SEMI - 1e-6 && f <= 1.1 * SEMI + 1e-6, || {
+                    format!("hysteresis kept note {} for input {:e} but fraction is {:e} V ({:.4} semitones)", note, v, f, f * 12.0)
+                });
+            }
+            if p.is_none() && mask == 0xFFF && (0.0..=10.0).contains(&v) {
+                ctx.probe(P_FRESH_CHROMATIC);
+                let f = c.fraction as f64;
+                ctx.check_classed(
+                    19,
+                    "fraction_range_chromatic_no_history",
+                    f >= 0.0 && f < SEMI + 1e-6,
+                    || {
+                        if (-5.0e-6..0.0).contains(&f) {
+                            "chromatic_no_history_fraction_negative_by_at_most_5uV"
+                        } else {
+                            ""
+                        }
+                    },
+                    || format!("chromatic scale, no history, input {:e} V: note {} fraction {:e} V, not in [0, 1/12)", v, note, f),
+                );
+            }
+        }
+
+        if p.map(|p| p != note).unwrap_or(false) {
+            ctx.probe(P_NOTE_CHANGED);
+        }
+        let oct = if v.is_finite() { (v64.max(0.0).min(10.0)) as u32 } else { 11 };
+        ctx.transition(
+            1 | oct << 2
+                | (kept_by_window as u32) << 6
+                | (ex.edited_since_convert as u32) << 7
+                | (mask.count_ones().min(12)) << 8
+                | (p.map(|p| p != note).unwrap_or(false) as u32) << 12
+                | (p.is_none() as u32) << 13,
+        );
+        ex.prev = Some(note);
+        ex.last_v = Some(bits);
+        ex.edited_since_convert = false;
+}
+
 impl Engine for QuantEngine {
     const NAME: &'static str = "quant";
     const PROBES: &'static [&'static str] = &[
@@ -161,203 +363,14 @@ impl Engine for QuantEngine {
 
     fn step(ex: &mut Exec, ev: &Ev, ctx: &mut Ctx) {
         match ev {
-            Ev::Convert(bits) => {
-                let v = f32::from_bits(*bits);
-                // "the input" of C09/C19 is the input after the documented clamp to [0, 10] V (C08 says so explicitly;
-                // with the raw input the statement's window rule and its monotonicity consequence contradict each
-                // other for inputs above 10 V, see DESIGN.md section 7)
-                let v64 = if v.is_nan() { f64::NAN } else { (v as f64).max(0.0).min(10.0) };
-                ctx.steps += 1;
-                ctx.sim_ns += 1_000_000; // control-rate conversion, 1 kHz
-                let c = real!(ex.q.convert(v));
-                let note = c.note_num;
-                let p = ex.prev;
-                let mask = ex.mask;
-                if v.is_nan() || v.is_infinite() {
-                    ctx.fault(F_NONFINITE_INPUT);
-                } else if !(0.0..=10.0).contains(&v) {
-                    ctx.fault(F_OUT_OF_RANGE_INPUT);
-                }
-                if ex.edited_since_convert {
-                    ctx.fault(F_EDIT_BETWEEN_CONVERSIONS);
-                    if ex.last_v == Some(*bits) && v >= 1.0 {
-                        ctx.probe(P_EDIT_BETWEEN_EQUAL_INPUTS_OCT_GE1);
+            Ev::Convert(bits) => convert_step(ex, *bits, ctx),
+            Ev::Hold(bits, n) => {
+                for i in 0..*n {
+                    convert_step(ex, *bits, ctx);
+                    if i & 0xffff == 0xffff {
+                        heartbeat();
                     }
                 }
-                if mask.count_ones() <= 3 {
-                    ctx.probe(P_SPARSE_SCALE_CONVERSIONS);
-                }
-
-                // ---------------- C07
-                ctx.check(7, "note_is_allowed_now", mask >> (note % 12) & 1 == 1, || {
-                    format!("convert({:e}) = note {} (pitch class {}) but the scale mask is {:012b}", v, note, note % 12, mask)
-                });
-
-                // ---------------- C09
-                let mut kept_by_window = false;
-                if !v.is_nan() {
-                    let mut ambiguous = false;
-                    let mut in_window = false;
-                    if let Some(p) = p {
-                        if mask >> (p % 12) & 1 == 1 {
-                            let lo = p as f64 * SEMI - HYST;
-                            let hi = p as f64 * SEMI + SEMI + HYST;
-                            let margin = 3e-6;
-                            if (v64 - lo).abs() < margin || (v64 - hi).abs() < margin {
-                                ambiguous = true;
-                            }
-                            in_window = lo < v64 && v64 < hi;
-                            if in_window && (v64 - lo < HYST || hi - v64 < HYST) {
-                                ctx.probe(P_WINDOW_EDGE_ZONE);
-                            }
-                        } else {
-                            let lo = p as f64 * SEMI - HYST;
-                            let hi = p as f64 * SEMI + SEMI + HYST;
-                            if lo < v64 && v64 < hi {
-                                ctx.probe(P_PREV_NOTE_FORBIDDEN_IN_WINDOW);
-                            }
-                        }
-                    }
-                    if ambiguous {
-                        ctx.probe(P_AMBIGUOUS_EDGE);
-                    } else if in_window {
-                        let p = p.unwrap();
-                        if p >= 12 {
-                            ctx.probe(P_WINDOW_HIT_OCT_GE1);
-                        }
-                        kept_by_window = true;
-                        ctx.check(9, "hysteresis_holds_note", note == p, || {
-                            format!(
-                                "previous note {} is allowed and input {:e} (clamped to [0,10]) lies inside its widened bucket ({:.6}, {:.6}) but the note changed to {}",
-                                p,
-                                v,
-                                p as f64 * SEMI - HYST,
-                                p as f64 * SEMI + SEMI + HYST,
-                                note
-                            )
-                        });
-                    } else {
-                        let mut twin = fresh_with(mask);
-                        let tn = real!(twin.convert(v)).note_num;
-                        ctx.probe(P_MEMORYLESS_COMPARISONS);
-                        ctx.check(9, "outside_window_is_memoryless", note == tn, || {
-                            format!(
-                                "input {:e} is outside the window of previous note {:?} (scale {:012b}); a quantizer without history reports {} but this one reports {}",
-                                v, p, mask, tn, note
-                            )
-                        });
-                    }
-                }
-                // scenario: non-decreasing inputs on a fixed scale give non-decreasing notes
-                if v.is_nan() {
-                    ex.mono = None;
-                } else {
-                    if let Some((pv, pn)) = ex.mono {
-                        if v >= pv {
-                            ctx.probe(P_MONOTONE_CHAIN_STEPS);
-                            ctx.check(9, "monotone_on_rising_input", note >= pn, || {
-                                format!("scale {:012b} fixed, input rose {:e} -> {:e} but the note fell {} -> {}", mask, pv, v, pn, note)
-                            });
-                        }
-                    }
-                    ex.mono = Some((v, note));
-                }
-                // scenario: noise smaller than the hysteresis width around a chromatic boundary: at most one change
-                let mut band_now = None;
-                if mask == 0xFFF && v.is_finite() && v64 > 0.04 && v64 < 9.96 {
-                    let nb = (v64 * 12.0).round();
-                    if (v64 - nb * SEMI).abs() < HYST - 4e-6 {
-                        band_now = Some(nb as i32);
-                    }
-                }
-                match (band_now, ex.band) {
-                    (Some(nb), Some((ob, ch, ln))) if nb == ob => {
-                        let ch2 = ch + (note != ln) as u32;
-                        ctx.probe(P_NOISE_BAND_CONVERSIONS);
-                        ctx.check(9, "noise_at_boundary_at_most_one_change", ch2 <= 1, || {
-                            format!(
-                                "inputs stayed within 1/120 V of the chromatic boundary {:.6} V but the note changed {} times (now {} -> {})",
-                                nb as f64 * SEMI,
-                                ch2,
-                                ln,
-                                note
-                            )
-                        });
-                        ex.band = Some((nb, ch2, note));
-                    }
-                    (Some(nb), _) => {
-                        let first_changed = p.map(|p| p != note).unwrap_or(false) as u32;
-                        ex.band = Some((nb, first_changed, note));
-                    }
-                    (None, _) => ex.band = None,
-                }
-
-                // ---------------- C19
-                let stair_expect = note as f32 / 12.0;
-                // note/12 as an f32: two ulps of slack so that `note * (1/12)` is accepted as well
-                let stair_ok = (c.stairstep as f64 - note as f64 / 12.0).abs() <= 2.0 * ulp32(stair_expect) + 1e-12;
-                ctx.check(19, "stairstep_is_note_over_12", stair_ok, || {
-                    format!("note {} but stairstep {:e} (expected {:e})", note, c.stairstep, stair_expect)
-                });
-                if !v.is_nan() {
-                    let clamped = v.max(0.0).min(10.0);
-                    let sum64 = c.stairstep as f64 + c.fraction as f64;
-                    let sum32 = (c.stairstep + c.fraction) as f64;
-                    let close = |target: f32| {
-                        let tol = 2.0 * ulp32(target.abs().max(c.stairstep.abs()));
-                        (sum64 - target as f64).abs() <= tol || (sum32 - target as f64).abs() <= tol
-                    };
-                    let ok = if (0.0..=10.0).contains(&v) { close(v) } else { (v.is_finite() && close(v)) || close(clamped) };
-                    ctx.check(19, "stairstep_plus_fraction_reproduces_input", ok, || {
-                        format!("input {:e}: stairstep {:e} + fraction {:e} = {:e}", v, c.stairstep, c.fraction, sum64)
-                    });
-                    // precondition of the clause is observable: the window actually kept the previous note
-                    // "the hysteresis window kept the previous note": the previous note came back although a quantizer
-                    // without history would have reported another one, or the input is inside the window of the statement
-                    let kept = Some(note) == p && (kept_by_window || {
-                        let mut twin = fresh_with(mask);
-                        real!(twin.convert(v)).note_num != note
-                    });
-                    if kept {
-                        let f = c.fraction as f64;
-                        ctx.check(19, "fraction_range_when_window_kept_note", f >= -0.1 * SEMI - 1e-6 && f <= 1.1 * SEMI + 1e-6, || {
-                            format!("hysteresis kept note {} for input {:e} but fraction is {:e} V ({:.4} semitones)", note, v, f, f * 12.0)
-                        });
-                    }
-                    if p.is_none() && mask == 0xFFF && (0.0..=10.0).contains(&v) {
-                        ctx.probe(P_FRESH_CHROMATIC);
-                        let f = c.fraction as f64;
-                        ctx.check_classed(
-                            19,
-                            "fraction_range_chromatic_no_history",
-                            f >= 0.0 && f < SEMI + 1e-6,
-                            || {
-                                if (-5.0e-6..0.0).contains(&f) {
-                                    "chromatic_no_history_fraction_negative_by_at_most_5uV"
-                                } else {
-                                    ""
-                                }
-                            },
-                            || format!("chromatic scale, no history, input {:e} V: note {} fraction {:e} V, not in [0, 1/12)", v, note, f),
-                        );
-                    }
-                }
-
-                if p.map(|p| p != note).unwrap_or(false) {
-                    ctx.probe(P_NOTE_CHANGED);
-                }
-                let oct = if v.is_finite() { (v64.max(0.0).min(10.0)) as u32 } else { 11 };
-                ctx.transition(
-                    1 | oct << 2
-                        | (kept_by_window as u32) << 6
-                        | (ex.edited_since_convert as u32) << 7
-                        | (mask.count_ones().min(12)) << 8
-                        | (p.map(|p| p != note).unwrap_or(false) as u32) << 12
-                        | (p.is_none() as u32) << 13,
-                );
-                ex.prev = Some(note);
-                ex.last_v = Some(*bits);
-                ex.edited_since_convert = false;
             }
             Ev::Allow(ns) | Ev::Forbid(ns) => {
                 let forbid = matches!(ev, Ev::Forbid(_));
@@ -442,6 +455,7 @@ impl Engine for QuantEngine {
     fn ev_json(e: &Ev) -> J {
         match e {
             Ev::Convert(b) => J::Arr(vec![J::s("convert"), J::hex32(*b), J::Num(f32::from_bits(*b) as f64)]),
+            Ev::Hold(b, n) => J::Arr(vec![J::s("convert_repeated"), J::hex32(*b), J::u(*n as u64), J::Num(f32::from_bits(*b) as f64)]),
             Ev::Allow(ns) => J::Arr(vec![J::s("allow"), J::Arr(ns.iter().map(|n| J::u(*n as u64)).collect())]),
             Ev::Forbid(ns) => J::Arr(vec![J::s("forbid"), J::Arr(ns.iter().map(|n| J::u(*n as u64)).collect())]),
             Ev::Restart => J::Arr(vec![J::s("restart")]),
@@ -458,6 +472,7 @@ impl Engine for QuantEngine {
         };
         Ok(match n {
             "convert" => Ev::Convert(arg(a, 0)?.as_hex32().ok_or("bad bits")?),
+            "convert_repeated" => Ev::Hold(arg(a, 0)?.as_hex32().ok_or("bad bits")?, ju64(arg(a, 1)?)? as u32),
             "allow" => Ev::Allow(list(a)?),
             "forbid" => Ev::Forbid(list(a)?),
             "restart" => Ev::Restart,
@@ -494,6 +509,8 @@ impl Engine for QuantEngine {
                 }
                 v
             }
+            Ev::Hold(b, n) if *n > 1 => vec![Ev::Hold(*b, 1), Ev::Hold(*b, n / 2), Ev::Hold(*b, n - 1)],
+            Ev::Hold(..) => Vec::new(),
             Ev::Restart => Vec::new(),
         }
     }
@@ -708,9 +725,20 @@ fn random_run(rng: &mut Rng, prof: &Profile, sink: &mut Sink<QuantEngine>) {
             8 => {
                 // a key held for a long time (a power-of-two-ish number of conversions inside the note's window),
                 // then the player switches the sounding pitch class off
-                let n = rng.near_pow2(false);
                 let note = rng.range(12, 119) as f64;
                 let v0 = note / 12.0 + SEMI * 0.5;
+                if rng.chance(0.4) {
+                    // a steady input for a very long time: 2^16 / 2^20 conversions, the last stretch in the hysteresis margin
+                    let p_million = if prof.tier == Tier::Thorough { 0.1 } else { 0.003 };
+                    let big = rng.chance(0.2);
+                    let n = if rng.chance(p_million) { (1u64 << 20) + rng.below(64) } else { rng.near_pow2(big) };
+                    t.push(Ev::Convert((v0 as f32).to_bits()));
+                    let margin = if rng.chance(0.5) { note / 12.0 + SEMI * 1.05 } else { note / 12.0 - SEMI * 0.05 };
+                    let vm = if rng.chance(0.6) { margin } else { v0 };
+                    t.push(Ev::Hold((vm as f32).to_bits(), n as u32));
+                    t.push(Ev::Hold((vm as f32).to_bits(), rng.range(1, 40) as u32));
+                }
+                let n = rng.near_pow2(false);
                 for _ in 0..n {
                     let v = v0 + rng.uniform(-0.3, 0.3) * SEMI;
                     t.push(Ev::Convert((v as f32).to_bits()));
